@@ -382,3 +382,11 @@ func writeJSON(path string, v any) error {
 	enc.SetIndent("", " ")
 	return enc.Encode(v)
 }
+
+func readJSON(path string, v any) error {
+	bs, err := os.ReadFile(path)
+	if err != nil {
+		return err
+	}
+	return json.Unmarshal(bs, v)
+}
